@@ -285,3 +285,8 @@ func ReplayDir(harnesses map[string]func()) error {
 	}
 	return nil
 }
+
+// Lang records, under the executor, the path condition and the result of a
+// predicate over an Opaque string (engine B turns the set of paths into the
+// regular language the predicate accepts).
+func Lang(name string, result bool) {}
